@@ -82,7 +82,16 @@ static bool check_query(const zp::Zone& z, const zp::Handle& h, int64_t t, std::
   const bool gn = h.next(t, &tr);
   const bool en = model_next(m, t, &r);
   if (t == INT64_MAX && gn) { *why = "next_transition(max()) returned true"; return false; }
-  if (gn) {
+  const bool legacy = m.pre_first_unspecified;  // the model does not know the type in force before the first transition
+  auto first_change = [&](const Real& x) { return legacy && !m.f.trans.empty() && x.t <= m.f.trans.front().t; };
+  if (gn && legacy && (!en || first_change(r) || !refcal::fits64(r.t))) {
+    // only the clauses that involve cctz alone: from/to agree with lookup() around the reported change
+    const auto cl = h.lookup(tr.to);
+    const int64_t T = zp::unix_of(cl.kind == cctz::time_zone::civil_lookup::UNIQUE ? cl.pre : cl.trans);
+    const auto a = h.lookup(T - 1), b = h.lookup(T);
+    if (T > INT64_MIN && (b.cs != tr.to || a.cs + 1 != tr.from)) { *why = "from/to of " + show(tr) + " disagree with lookup() at the change (legacy type-0 file)"; return false; }
+    EV->unspec("first_change_of_legacy_type0_file(model_silent)");
+  } else if (gn) {
     if (!en || !matches(tr, r)) {
       *why = "next_transition(" + vf::i64_str(t) + ") reported " + show(tr) + (en ? "; the next real change is " + show(r) : "; the zone has no later change");
       return false;
@@ -92,6 +101,8 @@ static bool check_query(const zp::Zone& z, const zp::Handle& h, int64_t t, std::
     const auto a = h.lookup((int64_t)r.t - 1), b = h.lookup((int64_t)r.t);
     if (a.offset == b.offset && a.is_dst == b.is_dst && std::string(a.abbr) == b.abbr) { *why = "lookup() does not differ across reported transition " + show(tr); return false; }
     if (b.cs != tr.to || a.cs + 1 != tr.from) { *why = "from/to of " + show(tr) + " disagree with lookup() at the change"; return false; }
+  } else if (en && first_change(r)) {
+    EV->unspec("first_change_of_legacy_type0_file(model_silent)");
   } else if (en && r.recorded) {
     *why = "next_transition(" + vf::i64_str(t) + ") returned false; the file records a later real change " + show(r);
     return false;
@@ -102,7 +113,12 @@ static bool check_query(const zp::Zone& z, const zp::Handle& h, int64_t t, std::
   const bool gp = h.prev(t, &tr);
   const bool ep = model_prev(m, t, &r);
   if (t == INT64_MIN && gp) { *why = "prev_transition(min()) returned true"; return false; }
-  if (gp) {
+  if (gp && legacy && (!ep || first_change(r))) {
+    const auto cl = h.lookup(tr.to);
+    const int64_t T = zp::unix_of(cl.kind == cctz::time_zone::civil_lookup::UNIQUE ? cl.pre : cl.trans);
+    const auto a = h.lookup(T - 1), b = h.lookup(T);
+    if (T > INT64_MIN && (b.cs != tr.to || a.cs + 1 != tr.from)) { *why = "from/to of " + show(tr) + " disagree with lookup() at the change (legacy type-0 file, prev)"; return false; }
+  } else if (gp) {
     if (!ep) { *why = "prev_transition(" + vf::i64_str(t) + ") reported " + show(tr) + " but the zone has no earlier change"; return false; }
     if (!matches(tr, r)) {
       // allowed only for a distant t: then the reported one must be the last transition cctz knows (a real rule change)
@@ -118,6 +134,8 @@ static bool check_query(const zp::Zone& z, const zp::Handle& h, int64_t t, std::
       }
       if (!ok) { *why = "prev_transition(" + vf::i64_str(t) + ") reported " + show(tr) + "; the previous real change is " + show(r); return false; }
     }
+  } else if (ep && first_change(r)) {
+    EV->unspec("first_change_of_legacy_type0_file(model_silent)");
   } else if (ep) {
     *why = "prev_transition(" + vf::i64_str(t) + ") returned false; the previous real change is " + show(r);
     return false;
@@ -164,7 +182,7 @@ static bool check_zone(const zp::Zone& z, zp::Handle& h, bool in_rc, bool full, 
   fc->set("sweep", full ? "full" : "thin");
   if (!h.ok) return true;
   const zm::Model& m = z.model;
-  if (m.pre_first_unspecified) { EV->unspec("zone_with_DST_type0_referenced"); return true; }
+  if (m.pre_first_unspecified) EV->cls("zone_legacy_DST_type0_referenced(relations_only_at_first_change)");
   const uint64_t zh = vf::fnv(z.bytes);
   prepare_zone(m);
   int64_t cur = 0;
@@ -208,7 +226,7 @@ static bool check_zone(const zp::Zone& z, zp::Handle& h, bool in_rc, bool full, 
 static bool replay(const vf::Case& c, std::string* why) {
   vf::Evidence ev; EV = &ev;
   zp::Zone z = zp::zone_from_label(c.get("zone"));
-  if (!z.model.in_domain() || z.model.pre_first_unspecified) return true;
+  if (!z.model.in_domain()) return true;
   zp::Handle h = zp::open_public(z.load_name);
   if (!h.ok) return true;
   prepare_zone(z.model);
